@@ -102,6 +102,9 @@ def algebra(ctx, count):
             ctx.fail("Not(And(xs)) != Or(Not(xs))", desc)
         # And <= Union <= Or
         for a, u, o in zip(v_and, v_un, v_or):
+            if len(set(x is None for x in (a, u, o))) > 1:
+                ctx.fail("And, Union and Or of the same inputs disagree on which cells are missing: %r %r %r" % (a, u, o), desc)
+                break
             if a is not None and not (a <= u + 1e-12 and u <= o + 1e-12):
                 ctx.fail("And <= Union <= Or violated: %r %r %r" % (a, u, o), desc)
                 break
